@@ -195,6 +195,16 @@ def run_config(mon: Monitor, cfg, workdir: str) -> None:
     dims = {"YX": (ydim, xdim), "SYX": ("band", ydim, xdim), "YXS": (ydim, xdim, "band")}[layout]
     cy, cx = cfg["chunks"]
     chunks = {"YX": (cy, cx), "SYX": (cfg["band_chunk"], cy, cx), "YXS": (cy, cx, cfg["band_chunk"])}[layout]  # pixel-interleaved sources may be split along the sample axis too
+    if cfg.get("irregular_chunks") or (cfg.get("irregular_chunks") is None and cfg["data_seed"] % 5 == 0 and min(ny, nx) > 4):
+        # irregular source chunking (a cropped or concatenated array): chunks of cy and of about cy/2 alternating - the largest chunk is still cy (D37)
+        def irr(n, c):
+            out, k = [], 0
+            while sum(out) < n:
+                out.append(min(c if k % 2 == 0 else max(1, c // 2), n - sum(out))); k += 1
+            return tuple(out)
+        sp = (irr(ny, cy), irr(nx, cx))
+        chunks = {"YX": sp, "SYX": (cfg["band_chunk"], *sp), "YXS": (*sp, cfg["band_chunk"])}[layout]
+        mon.obs["irregular_source_chunkings"] += 1
     # how the array declares its nodata: the `nodata` attribute, the CF `_FillValue` attribute alone (data opened from NetCDF / Zarr), or both
     nd_attr = cfg.get("nodata_attr") or ["nodata", "nodata", "_FillValue", "both"][cfg["data_seed"] % 4]
     attrs = {} if nodata is None else {"nodata": nodata} if nd_attr == "nodata" else {"_FillValue": nodata} if nd_attr == "_FillValue" else {"nodata": nodata, "_FillValue": nodata}
@@ -459,7 +469,9 @@ CONFIG_WATCHDOG_S = 300
 WRITE_BOUND = 2_000_000
 
 PINNED = [
-    # more than 16 tiles across and not a multiple of 2**levels: the padded layout has whole tile rows / columns the data does not have (D36)
+    # irregular source chunking whose largest chunk equals the tile size (D37)
+    dict(ny=64, nx=64, layout="YX", ns=1, dtype="uint16", chunks=[16, 64], band_chunk=1, nodata=None, blocksize=None, compression="deflate", predictor=None, spill_sz=None, writes_per_chunk=None, stats=True, bigtiff=True, scheduler="sync", workers=2, order_seed=36, data_seed=36, crs="EPSG:3857", irregular_chunks=True),
+    dict(ny=70, nx=100, layout="SYX", ns=2, dtype="int16", chunks=[16, 16], band_chunk=1, nodata=-9999, blocksize=[16], compression="zstd", predictor=None, spill_sz=1024, writes_per_chunk=2, stats=False, bigtiff=True, scheduler="threads", workers=4, order_seed=37, data_seed=37, crs="EPSG:4326", irregular_chunks=True),    # more than 16 tiles across and not a multiple of 2**levels: the padded layout has whole tile rows / columns the data does not have (D36)
     dict(ny=520, nx=100, layout="YX", ns=1, dtype="uint16", chunks=[64, 64], band_chunk=1, nodata=None, blocksize=[16], compression="deflate", predictor=None, spill_sz=None, writes_per_chunk=None, stats=True, bigtiff=True, scheduler="sync", workers=2, order_seed=33, data_seed=33, crs="EPSG:3857"),
     dict(ny=257, nx=300, layout="SYX", ns=2, dtype="int16", chunks=[64, 64], band_chunk=1, nodata=-9999, blocksize=[16], compression="zstd", predictor=None, spill_sz=4096, writes_per_chunk=2, stats=False, bigtiff=False, scheduler="threads", workers=4, order_seed=34, data_seed=34, crs="EPSG:4326"),
     dict(ny=300, nx=257, layout="YXS", ns=3, dtype="uint8", chunks=[100, 64], band_chunk=3, nodata=None, blocksize=[16], compression="lzw", predictor=None, spill_sz=None, writes_per_chunk=None, stats=True, bigtiff=True, scheduler="sync", workers=2, order_seed=35, data_seed=35, crs="EPSG:32633"),    # five pyramid levels, a first overview of more than 20 tiles, nothing spilled before the end (C05-10: repartitioned + concatenated bags reach the append step as one-shot iterators)
